@@ -49,7 +49,7 @@ PROP = dict(
 )
 
 THEOREMS = ["Wtf.C16." + t for t in (
-    "gen_params_ok", "cli_max_positive", "bounded_ordered", "immediate_dup", "add_new_appends", "roundtrip", "roundtrip_history",
+    "gen_params_ok", "cli_max_positive", "bounded_ordered", "limit_is_requested", "immediate_dup", "add_new_appends", "roundtrip", "roundtrip_history",
     "recent", "recent_head", "top_sum", "top_any_schedule", "stats", "add_no_panic", "add_no_panic_after_any_file",
     "raw_negative_max_panics", "raw_zero_max_drops", "unguarded_load_lets_file_break_add")]
 
@@ -195,6 +195,67 @@ def run(ctx):
         rank = 0 if "panic" in c or c.startswith("cli-") else 1 if c in ("load-merge-stale-fields", "roundtrip-mismatch", "add-wrong-entries") else 2
         return (rank, len(h["replay"].get("ops", [])) or 10 ** 9)
     ctx.hits.sort(key=prio)
-    left = [d for d in os.listdir(tmp)] if os.path.isdir(tmp) else []
+    left = [d for d in os.listdir(tmp) if d.startswith("wtfverif-hist-")] if os.path.isdir(tmp) else []
     ctx.oblige("harness:temp-dirs-removed", "hygiene", not left, "left behind: %s" % left[:5])
     shutil.rmtree(tmp, ignore_errors=True)
+
+
+def replay(ctx, rep):
+    """./check C16 --replay <file>: re-runs the recorded history (real code and model) or the recorded CLI run."""
+    tmp = os.path.join(ctx.rundir, "tmp")
+    os.makedirs(tmp, exist_ok=True)
+    os.environ["TMPDIR"] = tmp
+    items = []
+    if "failing" in rep:
+        items.append(rep["failing"])
+    for o in rep.get("broken_obligations", []):
+        if isinstance(o.get("detail"), dict) and "ops" in o["detail"]:
+            items.append(o["detail"])
+    rc = 0
+    if any(it.get("domain") != "cli" for it in items):
+        if not ctx.stage_build():
+            print("build failed")
+            return 1
+    for it in items:
+        if it.get("domain") == "cli":
+            ok, out, wtf = core.build_wtf_binary()
+            if not ok:
+                print(out)
+                return 1
+            base = os.path.join(ctx.rundir, "cli-replay")
+            home = os.path.join(base, "home")
+            xdg = os.path.join(home, "cfg")
+            hfile = os.path.join(xdg, "wtf", "search_history.json")
+            os.makedirs(os.path.dirname(hfile), exist_ok=True)
+            db = os.path.join(base, "db.yml")
+            open(db, "w").write(SMALL_DB)
+            content = dict(SEEDS_QUICK + SEEDS_THOROUGH).get(it.get("seed_file"))
+            if content is not None:
+                with open(hfile, "wb") as f:
+                    f.write(content if isinstance(content, bytes) else content.encode())
+            env = dict(os.environ, HOME=home, XDG_CONFIG_HOME=xdg, XDG_CACHE_HOME=os.path.join(home, "cache"), NO_COLOR="1")
+            p = subprocess.run([wtf, "--database", db, it.get("query", "list files")], env=env, cwd=home, stdout=subprocess.PIPE, stderr=subprocess.STDOUT, timeout=60)
+            txt = p.stdout.decode(errors="replace")
+            print("seed file %r: %r" % (it.get("seed_file"), content))
+            print("exit status:", p.returncode)
+            print(txt[-1500:])
+            try:
+                print("history file afterwards:", open(hfile).read()[:600])
+            except OSError as e:
+                print("history file afterwards: unreadable:", e)
+            if p.returncode != 0 or "panic" in txt:
+                rc = 1
+            continue
+        mm, il, ml, hits = core.run_single_case(ctx, "replay", it["domain"], it["ops"])
+        print("ops:")
+        for l in it["ops"]:
+            print("   ", core.pretty(l)[:400])
+        print("impl :", il)
+        print("model:", ml)
+        print("monitor hits:", json.dumps(hits)[:2000])
+        if mm or hits:
+            rc = 1
+    if not items:
+        print(json.dumps(rep, indent=1)[:4000])
+    shutil.rmtree(ctx.rundir, ignore_errors=True)
+    return rc
